@@ -1,6 +1,6 @@
 """C03: see DESIGN.md section 5. Collector-core property: theorems in coq/Props/C03.v, tie by lock-step,
 plus the static call-graph theorem over the regenerated call graph (coq-api/Props/C03Static.v)."""
-from props import core, static_facts
+from props import core, static_facts, builders_oracle
 
 SETUP_KEY = core.SETUP_KEY
 setup = core.setup
@@ -11,6 +11,7 @@ def run(chk, tier, seed):
     trusted = list(chk.trusted)
     static_facts.callgraph_obligations(chk)
     chk.trusted = trusted + [t for t in chk.trusted if t not in trusted]
+    builders_oracle.run(chk, "C03", tier, seed)
 
 
 def replay(path):
